@@ -29,6 +29,9 @@ def LE(s, e, n):
 
 
 K("awkward_ListArray_getitem_next_range",
+  # C01: every carried position lies inside the list being sliced, for every start/stop/step (CPython-adjusted
+  # bounds come from the callee contract of awkward_regularize_rangeslice)
+  store_asserts={"tocarry": ["fromstarts[i] <= value and value < fromstops[i]"]},
   requires=[LE("fromstarts", "fromstops", "lenstarts"), "step != 0"],
   extents={"tooffsets": "lenstarts + 1"},
   notes="calls awkward_regularize_rangeslice: verified modularly against that function's contract",
